@@ -59,3 +59,8 @@ CHECKS["C15"] = (
     "No model of the reader table is needed: the capabilities of a list must equal the in-order merge of the capabilities of its single records, and get_capabilities() against a device serving the list in one page or split at k with the more-flag must expose identical capability attributes with exactly one additional request. Every known and several unknown ids x sizes 0..10 x distinguishing first values in front of known records; random lists of up to 12 records.",
     "Records are well-formed (declared size == data present); trailer shapes as captured.",
     "DESIGN.md 3/C15")
+CHECKS["C16"] = (
+    "exploration", "model-based history generation (Hypothesis, operation lists interpreted against a reference model of pending writes and the device property store) + per-setter scripts on every profile family",
+    "Histories of setter calls, applies, refreshes, self-clean, beep toggles and device-side changes run against a model device with a vendor-layout property store under generated capability profiles. After every apply the device's write log must contain exactly one 0xB0 with exactly the pending ids under the advertised id and vendor encoding (or none when nothing is pending); after every refresh the attributes must equal the device's store; at most one breeze mode is ever true.",
+    "'Legacy both' devices are assumed to keep the two louver modes exclusive; setters are called only where supports_* is true.",
+    "DESIGN.md 3/C16")
